@@ -347,3 +347,9 @@ Lemma shift_unfixed_refuted_shr :
   exec (recipe_shift false false I8 U16) [128; 256]
   <> expect I8 (go_binop GShr I8 U16 (val I8 128) (val U16 256)).
 Proof. vm_compute. congruence. Qed.
+
+(* ---------- float comparisons ---------- *)
+Lemma fcmp_correct op o :
+  match op with GEq | GNe | GLt | GLe | GGt | GGe => True | _ => False end ->
+  eval_fpred (fpred_of op) o = go_fcmp op o.
+Proof. destruct op; try contradiction; destruct o; reflexivity. Qed.
